@@ -175,7 +175,8 @@ constraint:
 			cols = c.IndexedColumns
 		}
 		for _, co := range cols {
-			if co.Column != "" && st.column(co.Column) == nil {
+			// (an expression, co.Column == "", isn't allowed in these either)
+			if st.column(co.Column) == nil {
 				return nil
 			}
 		}
